@@ -87,20 +87,46 @@ static void judge_text(const char *what, const cJSON *t, int fmt, const char *go
 
 static void failinject(cJSON *t, int fmt, int cfg)
 {
-    int ep;
-    for (ep = 0; ep < 3; ep++) {
-        long m, k; char *s; uint64_t h0 = vb_hash(t, 0);
-        al_window(0); s = (ep == 0) ? (fmt ? cJSON_Print(t) : cJSON_PrintUnformatted(t)) : cJSON_PrintBuffered(t, ep == 1 ? 0 : 7, fmt); m = al_allocs; cJSON_free(s);
+    /* entry points: Print / PrintUnformatted, PrintBuffered with prebuffers 0, 7, 300, 1024 and text length + 40 (the first request is then larger than the
+     * default buffer: a fallback to a smaller block must not keep the refused size) */
+    int ep; char *ref = fmt ? cJSON_Print(t) : cJSON_PrintUnformatted(t); size_t RL = ref ? strlen(ref) : 0;
+    static const int PRE[6] = { 0, 0, 7, 300, 1024, -1 };
+    for (ep = 0; ep < 6; ep++) {
+        long m, k; char *s; uint64_t h0 = vb_hash(t, 0); int pre = PRE[ep] < 0 ? (int)RL + 40 : PRE[ep];
+        if (ep >= 3 && RL < 200 && !(vd_salt() % 7 == 0)) continue;       /* the larger prebuffers matter for texts that outgrow the default buffer; a sample of the short ones */
+        al_window(0); s = (ep == 0) ? (fmt ? cJSON_Print(t) : cJSON_PrintUnformatted(t)) : cJSON_PrintBuffered(t, pre, fmt); m = al_allocs; cJSON_free(s);
         for (k = 1; k <= m; k++) {
             long live0 = al_live;
-            if (!VD_TRY()) { al_in_call = 0; viol("C08", "print (entry %d, allocator config %d) with request %ld of %ld refused: memory fault", ep, cfg, k, m); return; }
-            al_window(k); s = (ep == 0) ? (fmt ? cJSON_Print(t) : cJSON_PrintUnformatted(t)) : cJSON_PrintBuffered(t, ep == 1 ? 0 : 7, fmt); al_fail_at = 0; failinj_runs++;
-            if (s) { cJSON_free(s); VD.drift++; }      /* completed normally without the refused block: admitted by C08 (the text itself is checked by the other properties' runs) */
+            if (!VD_TRY()) { al_in_call = 0; viol("C08", "print (entry %d, allocator config %d) with request %ld of %ld refused: memory fault", ep, cfg, k, m); cJSON_free(ref); return; }
+            al_window(k); s = (ep == 0) ? (fmt ? cJSON_Print(t) : cJSON_PrintUnformatted(t)) : cJSON_PrintBuffered(t, pre, fmt); al_fail_at = 0; failinj_runs++;
+            if (!al_check_redzones()) { viol("*", "print (entry %d, prebuffer %d, config %d) with request %ld of %ld refused wrote beyond the end of a block it allocated", ep, pre, cfg, k, m); al_overflow = 0; }
+            if (s) {      /* completed normally without the refused block: admitted by C08 - and then it is the normal result */
+                if (ref && strcmp(s, ref)) viol("C08 C05", "print (entry %d, prebuffer %d, config %d) with request %ld of %ld refused completes with another text than it returns otherwise", ep, pre, cfg, k, m);
+                cJSON_free(s); VD.drift++;
+                if (al_live != live0) viol("C08", "print (entry %d, config %d) with request %ld of %ld refused (and completed) leaves %ld block(s) allocated besides the text", ep, cfg, k, m, al_live - live0);
+            }
             else if (al_live != live0) viol("C08", "print (entry %d, config %d) with request %ld of %ld refused leaves %ld block(s) allocated", ep, cfg, k, m, al_live - live0);
             if (al_bad_free) { viol("C08 C14 C07", "print (entry %d, config %d) with request %ld of %ld refused: invalid release (double free)", ep, cfg, k, m); al_bad_free = 0; }
             if (vb_hash(t, 0) != h0) viol("C08", "print with a refused request modified the tree");
             VD_END();
         }
+    }
+    cJSON_free(ref);
+}
+/* trees whose text outgrows the default print buffer, under failure injection (the universes of the quick tier are short texts) */
+static void failinject_long(void)
+{
+    int shape, fmt, cfg, i;
+    for (shape = 0; shape < 3; shape++) {
+        cJSON *t; char key[16];
+        al_case_begin(); use_custom_hooks(); t = shape == 1 ? cJSON_CreateObject() : cJSON_CreateArray();
+        for (i = 0; i < (shape == 2 ? 3 : 60); i++) {
+            cJSON *c = shape == 2 ? cJSON_CreateString("0123456789 0123456789 0123456789 0123456789 0123456789 0123456789 0123456789 0123456789 0123456789 \"q\" 0123456789") : cJSON_CreateNumber(1000000 + i);
+            if (shape == 1) { snprintf(key, sizeof(key), "key%d", i); cJSON_AddItemToObject(t, key, c); } else cJSON_AddItemToArray(t, c);
+        }
+        for (cfg = 0; cfg < 2; cfg++) { if (cfg == 0) use_custom_hooks(); else use_default_hooks(); for (fmt = 0; fmt < 2; fmt++) { VD.cases++; failinject(t, fmt, cfg); vd_tick(); } }
+        use_custom_hooks(); cJSON_Delete(t);
+        if (al_live != 0) viol("C08 C07", "printing long texts under refused requests leaves %ld block(s) allocated", al_live);
     }
 }
 
@@ -480,6 +506,7 @@ int vd_print_main(int argc, char **argv)
         if (!strcmp(argv[k], "--fulltable")) full_table = 1;
     }
     use_custom_hooks(); region_init(); vd_install_handlers();
+    if (do_failinject) failinject_long();
     while ((len = getline(&line, &cap, stdin)) > 0 || (len < 0 && errno == EINTR && !feof(stdin) && (clearerr(stdin), 1))) {
         char *copy; jv *v; int rc;
         if (len <= 0) continue;
